@@ -6,6 +6,7 @@ package circuitbreaker
 
 import (
 	"encoding/json"
+	"sync/atomic"
 	"testing"
 	"time"
 
@@ -28,6 +29,13 @@ type c08Input struct {
 	Policy c08Policy `json:"policy"`
 	T0     int64     `json:"t0"`  // ns after a whole second at which the breaker is created
 	Ops    [][]int64 `json:"ops"` // [0] acquire | [1, ref, hasErr, d] record | [2, d] advance
+	// Race (0 = none; count-based policies, ops[Race-1] = B and ops[Race] = A both records): B runs in a
+	// goroutine whose first clock read (transitTo, inside the critical section) is a schedule point: the
+	// stub blocks it there while A is started in a second goroutine; after 20 ms B is released. B holds
+	// the lock, so A can only run after B's transition (its state id is then stale: A changes nothing)
+	// and the outcome is that of the sequential history in input order — that is what is judged; both
+	// steps report the state after both calls. If B does not transition the two run one after the other.
+	Race int `json:"race,omitempty"`
 }
 
 type c08Obs struct {
@@ -139,7 +147,31 @@ func c08GenPolicy(r *verifh.Rand) c08Policy {
 	return p
 }
 
+// c08RaceCase: open by m failures, wait, three half-open trials; the m-th trial's success closes the
+// breaker (B) while the next trial's failure (A) is recorded concurrently.
+func c08RaceCase(r *verifh.Rand) c08Input {
+	m := int64(r.PickInt(1, 2))
+	in := c08Input{Policy: c08Policy{FailTh: r.PickInt(50, 100, 1), SlowTh: 100, Size: r.Range(2, 5), Permitted: 3,
+		MinCalls: int(m), SlowDur: c08Sec, WaitOpen: c08Sec}, T0: int64(r.PickInt(0, 1, 500000000))}
+	for j := int64(0); j < m; j++ {
+		in.Ops = append(in.Ops, []int64{0})
+	}
+	for j := int64(0); j < m; j++ {
+		in.Ops = append(in.Ops, []int64{1, j, 1, 0})
+	}
+	in.Ops = append(in.Ops, []int64{2, c08Sec}, []int64{0}, []int64{0}, []int64{0})
+	if m == 2 {
+		in.Ops = append(in.Ops, []int64{1, 2*m + 1, 0, 0})
+	}
+	in.Ops = append(in.Ops, []int64{1, 2*m + m, 0, 0}, []int64{1, 2*m + m + 1, 1, 0}, []int64{0})
+	in.Race = len(in.Ops) - 2
+	return in
+}
+
 func c08Gen(r *verifh.Rand, i int) interface{} {
+	if r.Bool(1, 80) {
+		return c08RaceCase(r)
+	}
 	in := c08Input{Policy: c08GenPolicy(r)}
 	in.T0 = int64(r.PickInt(0, 1, 999999999, 500000000, r.Intn(1000000000)))
 	old := nowFunc
@@ -233,10 +265,76 @@ func c08Exec(raw json.RawMessage) interface{} {
 	old := nowFunc
 	defer func() { nowFunc = old }()
 	var cur int64
-	nowFunc = func() time.Time { return c08Base.Add(time.Duration(cur)) }
+	var armed int32
+	entered, release := make(chan struct{}), make(chan struct{})
+	nowFunc = func() time.Time {
+		t := c08Base.Add(time.Duration(cur))
+		if atomic.CompareAndSwapInt32(&armed, 1, 0) { // B's first clock read: the schedule point
+			close(entered)
+			<-release
+		}
+		return t
+	}
 	d := newC08Driver(in.Policy, in.T0, &cur)
 	obs := c08Obs{Steps: make([][4]int64, 0, len(in.Ops))}
-	for _, op := range in.Ops {
+	record := func(op []int64, done chan interface{}) {
+		defer func() { done <- recover() }()
+		ref := c08At(op, 1)
+		if ref >= 0 && ref < int64(len(d.log)) && d.log[ref].ok {
+			d.cb.RecordResult(d.log[ref].id, c08At(op, 2) != 0, time.Duration(c08At(op, 3)))
+		}
+	}
+	for k := 0; k < len(in.Ops); k++ {
+		op := in.Ops[k]
+		if in.Race >= 1 && k == in.Race-1 && k+1 < len(in.Ops) && in.Policy.TimeBased == 0 &&
+			c08At(op, 0) == 1 && c08At(in.Ops[k+1], 0) == 1 {
+			doneB, doneA := make(chan interface{}, 1), make(chan interface{}, 1)
+			atomic.StoreInt32(&armed, 1)
+			go record(op, doneB)
+			gated := false
+			var pb, pa interface{}
+			select {
+			case <-entered:
+				gated = true
+			case pb = <-doneB: // no transition: B is complete, A follows sequentially
+				atomic.StoreInt32(&armed, 0)
+			case <-time.After(20 * time.Second):
+				return map[string]string{"error": "race: B neither finished nor reached the clock"}
+			}
+			if gated {
+				go record(in.Ops[k+1], doneA)
+				time.Sleep(20 * time.Millisecond) // lets A run up to the lock B holds; only needed to find a violation
+				close(release)
+				pb = <-doneB
+				pa = <-doneA
+				if pb != nil {
+					panic(pb)
+				}
+				if pa != nil {
+					panic(pa)
+				}
+				d.log = append(d.log, struct {
+					ok bool
+					id uint32
+				}{}, struct {
+					ok bool
+					id uint32
+				}{})
+				st := [4]int64{0, 0, int64(d.cb.State()), int64(d.cb.window.Total())}
+				obs.Steps = append(obs.Steps, st, st)
+				k++
+				continue
+			}
+			if pb != nil {
+				panic(pb)
+			}
+			d.log = append(d.log, struct {
+				ok bool
+				id uint32
+			}{})
+			obs.Steps = append(obs.Steps, [4]int64{0, 0, int64(d.cb.State()), int64(d.cb.window.Total())})
+			continue
+		}
 		obs.Steps = append(obs.Steps, d.step(op, &cur))
 	}
 	return obs
